@@ -75,7 +75,7 @@ def mti_clauses(c, s1, s2, off, max_diff, L1, L2, upto, n2):
 @register
 class matching_time_indices(FnContract):
     name = M + "matching_time_indices"
-    props = ["C05", "C16"]
+    props = ["C05"]
 
     def args(self, c):
         n1, n2 = c.int("n1"), c.int("n2")
@@ -139,7 +139,7 @@ def _sides(c, a):
 @register
 class associate_trajectories(FnContract):
     name = M + "associate_trajectories"
-    props = ["C05", "C16"]
+    props = ["C05"]
 
     def cases(self):
         return [{"mode": "poses"}, {"mode": "xyzquat"}]
@@ -220,7 +220,7 @@ class associate_trajectories(FnContract):
             fresh_ = True
             for r in (r1, r2):
                 for t in (a.traj_1, a.traj_2):
-                    if r is t:
+                    if r is t or tm.shares_storage(r, t):
                         fresh_ = False
                     for f, v in r.__dict__.items():
                         if f in t.__dict__ and v is t.__dict__[f] and isinstance(v, (sym.SArr, sym.SSeq)):
